@@ -60,18 +60,651 @@ def specViolations (T : Table) (X : Xsd) (untyped anyName : Nat) : List (Nat × 
     | some x => (k.specs.filter (fun s => !specAgrees untyped anyName k x s)).map fun s => (k.name, s.name)
     | none => [(k.name, 0)]
 
+/-! ### second pass: class-level state, statement-level vocabularies, formats, histories
+
+The introspection helpers read and (in `_get_members`) WRITE class-level data: the per-class lists
+`member_data_items_` (mutable Python lists shared by every instance) and the cache `__all_members_`.  The state below
+carries both; a list-valued variable is either a fresh list or an ALIAS of one class's table (`LVal`), so that an
+in-place `+=` through an alias changes the table, exactly as in Python. -/
+
+inductive LVal where
+  | fresh (l : List Spec)
+  | table (c : Nat)
+deriving Repr, DecidableEq, Inhabited
+
+structure CState where
+  tables : List (Nat × List Spec)     -- `K.member_data_items_` for every class K (own entries only)
+  cache : List (Nat × LVal)           -- `__all_members_`, keyed by class name
+deriving Repr, DecidableEq, Inhabited
+
+def initState (T : Table) : CState := ⟨T.map (fun k => (k.name, k.specs)), []⟩
+
+/-- `c.member_data_items_`; a class without a table contributes nothing (`except AttributeError: pass`) -/
+def tableOf (S : CState) (c : Nat) : List Spec :=
+  match lookup c S.tables with
+  | some l => l
+  | none => []
+
+def setA {α : Type} (c : Nat) (v : α) : List (Nat × α) → List (Nat × α)
+  | [] => [(c, v)]
+  | (k, w) :: r => if c = k then (k, v) :: r else (k, w) :: setA c v r
+
+def readL (S : CState) : LVal → List Spec
+  | .fresh l => l
+  | .table c => tableOf S c
+
+/-- in-place `x += l` on a list-valued variable: through an alias the class table itself grows -/
+def iaddL (S : CState) (x : LVal) (l : List Spec) : CState × LVal :=
+  match x with
+  | .fresh a => (S, .fresh (a ++ l))
+  | .table c => ({ S with tables := setA c (tableOf S c ++ l) S.tables }, .table c)
+
+/-- names of the classes in `cls.__mro__` that carry a table: the class itself first, then its ancestors -/
+def mro (T : Table) (c : Nat) : List Nat := (chain T T.length c).map (·.name)
+
+/-- hand model of `_get_members` WITH its cache: a hit returns the stored list; a miss stores
+    `list(set(copy(own) + Σ_{k ∈ mro} k.member_data_items_))` as a fresh list -/
+def getMembersM (T : Table) (S : CState) (c : Nat) : List Spec × CState :=
+  match lookup c S.cache with
+  | some v => (readL S v, S)
+  | none =>
+    let l := dedup (tableOf S c ++ (mro T c).flatMap (tableOf S))
+    (l, { S with cache := setA c (.fresh l) S.cache })
+
+/-! #### vocabulary of `_get_members` (one constructor per Python statement form the translator recognises) -/
+
+inductive GMCmd where
+  | bindCurrentClass        -- current_class = cls.__name__
+  | tryReturnCached         -- try: return cls.__all_members_[current_class] / except AttributeError: … = {} / except KeyError: pass
+  | cacheAssignCopyOwn      -- cls.__all_members_[current_class] = copy.copy(cls.member_data_items_)
+  | cacheAssignOwn          -- cls.__all_members_[current_class] = cls.member_data_items_           (alias)
+  | localAssignCopyOwn      -- all_members = copy.copy(cls.member_data_items_)
+  | localAssignOwn          -- all_members = cls.member_data_items_                                (alias)
+  | forMroIaddCache         -- for c in cls.__mro__: try: cls.__all_members_[current_class] += c.member_data_items_ …
+  | forMroIaddLocal         -- for c in cls.__mro__: try: all_members += c.member_data_items_ …
+  | cacheDedup              -- cls.__all_members_[current_class] = list(set(cls.__all_members_[current_class]))
+  | cacheAssignDedupLocal   -- cls.__all_members_[current_class] = list(set(all_members))
+  | returnCache             -- return cls.__all_members_[current_class]
+deriving Repr, DecidableEq, Inhabited
+
+structure GMState where
+  S : CState
+  loc : Option LVal := none          -- the local `all_members`
+  bound : Bool := false              -- `current_class` is bound
+  ret : Option (List Spec) := none   -- value returned (execution stops)
+  err : Bool := false                -- NameError / KeyError (use before definition)
+deriving Repr, Inhabited
+
+def iaddMro (T : Table) (c : Nat) (S : CState) (x : LVal) : CState × LVal :=
+  (mro T c).foldl (fun (p : CState × LVal) k => iaddL p.1 p.2 (tableOf p.1 k)) (S, x)
+
+def GMCmd.exec (T : Table) (c : Nat) (σ : GMState) : GMCmd → GMState
+  | .bindCurrentClass => { σ with bound := true }
+  | .tryReturnCached =>
+    if !σ.bound then { σ with err := true } else
+    match lookup c σ.S.cache with
+    | some v => { σ with ret := some (readL σ.S v) }
+    | none => σ
+  | .cacheAssignCopyOwn =>
+    if !σ.bound then { σ with err := true } else
+    { σ with S := { σ.S with cache := setA c (.fresh (tableOf σ.S c)) σ.S.cache } }
+  | .cacheAssignOwn =>
+    if !σ.bound then { σ with err := true } else
+    { σ with S := { σ.S with cache := setA c (.table c) σ.S.cache } }
+  | .localAssignCopyOwn => { σ with loc := some (.fresh (tableOf σ.S c)) }
+  | .localAssignOwn => { σ with loc := some (.table c) }
+  | .forMroIaddCache =>
+    match lookup c σ.S.cache with
+    | none => { σ with err := true }
+    | some v =>
+      let (S', v') := iaddMro T c σ.S v
+      { σ with S := { S' with cache := setA c v' S'.cache } }
+  | .forMroIaddLocal =>
+    match σ.loc with
+    | none => { σ with err := true }
+    | some v =>
+      let (S', v') := iaddMro T c σ.S v
+      { σ with S := S', loc := some v' }
+  | .cacheDedup =>
+    match lookup c σ.S.cache with
+    | none => { σ with err := true }
+    | some v => { σ with S := { σ.S with cache := setA c (.fresh (dedup (readL σ.S v))) σ.S.cache } }
+  | .cacheAssignDedupLocal =>
+    match σ.loc with
+    | none => { σ with err := true }
+    | some v =>
+      if !σ.bound then { σ with err := true } else
+      { σ with S := { σ.S with cache := setA c (.fresh (dedup (readL σ.S v))) σ.S.cache } }
+  | .returnCache =>
+    match lookup c σ.S.cache with
+    | none => { σ with err := true }
+    | some v => { σ with ret := some (readL σ.S v) }
+
+def runGMCmds (T : Table) (c : Nat) : List GMCmd → GMState → GMState
+  | [], σ => σ
+  | s :: r, σ => if σ.ret.isSome || σ.err then σ else runGMCmds T c r (s.exec T c σ)
+
+/-- run a translated `_get_members` body on class `c`; `none` = raised or fell off the end (returns `None`) -/
+def runGM (T : Table) (prog : List GMCmd) (S : CState) (c : Nat) : Option (List Spec) × CState :=
+  let σ := runGMCmds T c prog { S := S }
+  (if σ.err then none else σ.ret, σ.S)
+
+/-! #### `info()`: the three return formats -/
+
+inductive Fmt where
+  | string | list | dict
+deriving Repr, DecidableEq, Inhabited
+
+inductive NExp where
+  | name | dtype                -- member.get_name() / member.get_data_type()
+deriving Repr, DecidableEq, Inhabited
+
+inductive BExp where
+  | optional                    -- member.get_optional() (truthiness)
+  | const (b : Bool)
+  | ite (c t e : BExp)          -- t if c else e
+  | not (b : BExp)
+deriving Repr, DecidableEq, Inhabited
+
+def NExp.eval (s : Spec) : NExp → Nat
+  | .name => s.name
+  | .dtype => s.dtype
+
+def BExp.eval (s : Spec) : BExp → Bool
+  | .optional => s.optional
+  | .const b => b
+  | .ite c t e => if c.eval s then t.eval s else e.eval s
+  | .not b => !(b.eval s)
+
+/-- what `info` returns, up to the texts around the member lines: a list of member names, a dict
+    name ↦ (required, type) (insertion-ordered, later assignments overwrite), or the string, of which the model keeps
+    one line `* name (class: type, Optional|Required)` per member as (name, type, saysOptional) -/
+inductive InfoOut where
+  | names (l : List Nat)
+  | dict (l : List (Nat × Bool × Nat))
+  | lines (l : List (Nat × Nat × Bool))
+deriving Repr, DecidableEq, Inhabited
+
+/-- the translated sub-expressions of the `for member in all_members:` statement of `info` -/
+structure InfoLoop where
+  lineName : NExp
+  lineType : NExp
+  lineOptional : BExp        -- `"Optional" if <this> else "Required"`
+  dictKey : NExp
+  dictRequired : BExp
+  dictType : NExp
+  listItem : NExp
+deriving Repr, DecidableEq, Inhabited
+
+inductive ICmd where
+  | initRet                  -- if show_contents: info_ret = {} else: info_ret = []
+  | header                   -- try: info_str = doc … ; class_name = … ; info_str += … (×2)
+  | bindMembers              -- all_members = self._get_members()
+  | forMembers (l : InfoLoop)
+  | retByFormat              -- if return_format == "list": (keys of a dict | the list) elif "dict": return info_ret
+  | printStr                 -- print(info_str)
+  | retStr                   -- return info_str
+deriving Repr, DecidableEq, Inhabited
+
+structure IState where
+  retList : List Nat := []
+  retDict : List (Nat × Bool × Nat) := []
+  lines : Option (List (Nat × Nat × Bool)) := none     -- `info_str` (none = unbound)
+  inited : Bool := false
+  members : Option (List Spec) := none
+  out : Option InfoOut := none
+  err : Bool := false
+deriving Repr, Inhabited
+
+def ICmd.exec (ms : List Spec) (sc : Bool) (fmt : Fmt) (σ : IState) : ICmd → IState
+  | .initRet => { σ with inited := true, retList := [], retDict := [] }
+  | .header => { σ with lines := some [] }
+  | .bindMembers => { σ with members := some ms }
+  | .forMembers L =>
+    match σ.members, σ.lines with
+    | some m, some ls =>
+      if !σ.inited then { σ with err := true } else
+      { σ with lines := some (ls ++ m.map fun s => (L.lineName.eval s, L.lineType.eval s, L.lineOptional.eval s)),
+               retDict := if sc then m.foldl (fun d s => setA (L.dictKey.eval s) (L.dictRequired.eval s, L.dictType.eval s) d) σ.retDict
+                          else σ.retDict,
+               retList := if sc then σ.retList else σ.retList ++ m.map (L.listItem.eval) }
+    | _, _ => { σ with err := true }
+  | .retByFormat =>
+    if !σ.inited then { σ with err := true } else
+    match fmt with
+    | .list => { σ with out := some (.names (if sc then σ.retDict.map (·.1) else σ.retList)) }
+    | .dict => { σ with out := some (if sc then .dict σ.retDict else .names σ.retList) }
+    | .string => σ
+  | .printStr => match σ.lines with | some _ => σ | none => { σ with err := true }
+  | .retStr => match σ.lines with | some ls => { σ with out := some (.lines ls) } | none => { σ with err := true }
+
+def runICmds (ms : List Spec) (sc : Bool) (fmt : Fmt) : List ICmd → IState → IState
+  | [], σ => σ
+  | s :: r, σ => if σ.out.isSome || σ.err then σ else runICmds ms sc fmt r (s.exec ms sc fmt σ)
+
+def runInfo (prog : List ICmd) (ms : List Spec) (sc : Bool) (fmt : Fmt) : Option InfoOut :=
+  let σ := runICmds ms sc fmt prog {}
+  if σ.err then none else σ.out
+
+def dictOf (ms : List Spec) : List (Nat × Bool × Nat) :=
+  ms.foldl (fun d s => setA s.name (!s.optional, s.dtype) d) []
+
+/-- hand model of `info(show_contents, return_format)` over the member list `_get_members` gave -/
+def infoOut (ms : List Spec) (sc : Bool) (fmt : Fmt) : InfoOut :=
+  match fmt, sc with
+  | .string, _ => .lines (ms.map fun s => (s.name, s.dtype, s.optional))
+  | .list, false => .names (ms.map (·.name))
+  | .list, true => .names ((dictOf ms).map (·.1))
+  | .dict, false => .names (ms.map (·.name))
+  | .dict, true => .dict (dictOf ms)
+
+/-- the member names an `info` answer speaks about -/
+def InfoOut.memberNames : InfoOut → List Nat
+  | .names l => l
+  | .dict l => l.map (·.1)
+  | .lines l => l.map (·.1)
+
+/-! #### `parentinfo()` -/
+
+inductive PInfoOut where
+  | parents (l : List Nat)
+  | dict (l : List (Nat × List (Nat × Bool × Nat)))     -- parent ↦ (member ↦ (required, type))
+  | lines (l : List (Nat × List (Nat × Bool × Nat)))    -- the string: `* parent` then one line per member
+deriving Repr, DecidableEq, Inhabited
+
+structure PLoop where
+  matchType : NExp           -- `amember.<this>() == self.__class__.__name__`
+  key : NExp                 -- retinfo[ac][<this>]
+  required : BExp            -- required = <this>
+  type : NExp                -- "type": <this>
+deriving Repr, DecidableEq, Inhabited
+
+inductive PCmd where
+  | excluded                 -- excluded_classes = [...]
+  | header                   -- try: info_str = doc …; info_str += … (×2)
+  | initRetinfo              -- retinfo = {}
+  | moduleClasses            -- module_object = …; nml_ct_classes = dir(module_object)
+  | forClasses (l : PLoop)   -- for ac in nml_ct_classes: … cc()._get_members() … retinfo[ac][…] = {…}
+  | buildString              -- for parent, members in retinfo.items(): info_str += …
+  | retByFormat              -- if "list": return list(retinfo.keys()) elif "dict": return retinfo
+  | printStr
+  | retStr
+deriving Repr, DecidableEq, Inhabited
+
+/-- `retinfo[ac][key] = v`, creating `retinfo[ac] = {}` first when absent -/
+def pinsert (p key : Nat) (v : Bool × Nat) (d : List (Nat × List (Nat × Bool × Nat))) :
+    List (Nat × List (Nat × Bool × Nat)) :=
+  match lookup p d with
+  | some inner => setA p (setA key v inner) d
+  | none => setA p [(key, v)] d
+
+def pinfoFold (L : PLoop) (c : Nat) (cm : List (Nat × List Spec)) : List (Nat × List (Nat × Bool × Nat)) :=
+  cm.foldl (fun d (pm : Nat × List Spec) =>
+    pm.2.foldl (fun d s => if L.matchType.eval s == c then pinsert pm.1 (L.key.eval s) (L.required.eval s, L.type.eval s) d else d) d) []
+
+structure PState where
+  retinfo : Option (List (Nat × List (Nat × Bool × Nat))) := none
+  str : Bool := false
+  built : Bool := false
+  classes : Bool := false
+  excl : Bool := false
+  out : Option PInfoOut := none
+  err : Bool := false
+deriving Repr, Inhabited
+
+def PCmd.exec (cm : List (Nat × List Spec)) (c : Nat) (fmt : Fmt) (σ : PState) : PCmd → PState
+  | .excluded => { σ with excl := true }
+  | .header => { σ with str := true }
+  | .initRetinfo => { σ with retinfo := some [] }
+  | .moduleClasses => { σ with classes := true }
+  | .forClasses L =>
+    match σ.retinfo with
+    | some [] => if σ.classes && σ.excl then { σ with retinfo := some (pinfoFold L c cm) } else { σ with err := true }
+    | _ => { σ with err := true }
+  | .buildString => if σ.str && σ.retinfo.isSome then { σ with built := true } else { σ with err := true }
+  | .retByFormat =>
+    match σ.retinfo, fmt with
+    | some d, .list => { σ with out := some (.parents (d.map (·.1))) }
+    | some d, .dict => { σ with out := some (.dict d) }
+    | some _, .string => σ
+    | none, _ => { σ with err := true }
+  | .printStr => if σ.str then σ else { σ with err := true }
+  | .retStr =>
+    match σ.retinfo with
+    | some d => if σ.built then { σ with out := some (.lines d) } else { σ with err := true }
+    | none => { σ with err := true }
+
+def runPCmds (cm : List (Nat × List Spec)) (c : Nat) (fmt : Fmt) : List PCmd → PState → PState
+  | [], σ => σ
+  | s :: r, σ => if σ.out.isSome || σ.err then σ else runPCmds cm c fmt r (s.exec cm c fmt σ)
+
+def runPinfo (prog : List PCmd) (cm : List (Nat × List Spec)) (c : Nat) (fmt : Fmt) : Option PInfoOut :=
+  let σ := runPCmds cm c fmt prog {}
+  if σ.err then none else σ.out
+
+/-- hand model: the dict `parent ↦ member ↦ (required, type)` over (class, its members) pairs -/
+def pinfoDict (cm : List (Nat × List Spec)) (c : Nat) : List (Nat × List (Nat × Bool × Nat)) :=
+  cm.foldl (fun d (pm : Nat × List Spec) =>
+    pm.2.foldl (fun d s => if s.dtype == c then pinsert pm.1 s.name (!s.optional, s.dtype) d else d) d) []
+
+def pinfoOut (cm : List (Nat × List Spec)) (c : Nat) (fmt : Fmt) : PInfoOut :=
+  match fmt with
+  | .list => .parents ((pinfoDict cm c).map (·.1))
+  | .dict => .dict (pinfoDict cm c)
+  | .string => .lines (pinfoDict cm c)
+
+/-- (class, members) for every class the module exports, through the pure `getMembers` -/
+def classMembers (T : Table) : List (Nat × List Spec) := T.map fun k => (k.name, getMembers T k.name)
+
+/-! #### `_check_arg_list` -/
+
+inductive CCmd where
+  | bindMembers              -- members = self._get_members()
+  | initNames                -- member_names = []
+  | forCollect (e : NExp)    -- for m in members: member_names.append(m.<e>())
+  | bindArgs                 -- args = list(kwargs.keys())
+  | forArgsRaise             -- for arg in args: if arg not in member_names: … raise ValueError(err)
+deriving Repr, DecidableEq, Inhabited
+
+structure CCState where
+  members : Option (List Spec) := none
+  names : Option (List Nat) := none
+  args : Option (List Nat) := none
+  raised : Bool := false
+  err : Bool := false
+deriving Repr, Inhabited
+
+def CCmd.exec (ms : List Spec) (kws : List Nat) (σ : CCState) : CCmd → CCState
+  | .bindMembers => { σ with members := some ms }
+  | .initNames => { σ with names := some [] }
+  | .forCollect e =>
+    match σ.members, σ.names with
+    | some m, some n => { σ with names := some (n ++ m.map e.eval) }
+    | _, _ => { σ with err := true }
+  | .bindArgs => { σ with args := some kws }
+  | .forArgsRaise =>
+    match σ.args, σ.names with
+    | some a, some n => { σ with raised := a.any (fun k => !n.contains k) }
+    | _, _ => { σ with err := true }
+
+def runCCmds (ms : List Spec) (kws : List Nat) : List CCmd → CCState → CCState
+  | [], σ => σ
+  | s :: r, σ => if σ.raised || σ.err then σ else runCCmds ms kws r (s.exec ms kws σ)
+
+/-- `some true` = accepted (returns None), `some false` = ValueError, `none` = the translated body is ill-formed -/
+def runCheck (prog : List CCmd) (ms : List Spec) (kws : List Nat) : Option Bool :=
+  let σ := runCCmds ms kws prog {}
+  if σ.err then none else some (!σ.raised)
+
+def checkArgs (ms : List Spec) (kws : List Nat) : Bool := kws.all fun k => (ms.map (·.name)).contains k
+
 /-! ### get_by_id -/
 
+/-- the values an `id` (of a component, or asked for) takes in practice -/
+inductive IdVal where
+  | none
+  | str (s : String)
+  | int (n : Int)
+deriving Repr, DecidableEq, Inhabited
+
+def IdVal.isStr : IdVal → Bool
+  | .str _ => true
+  | _ => false
+
 structure Comp where
-  hasId : Bool
-  id : String
+  hasId : Bool       -- `hasattr(m, "id")`
+  id : IdVal
   tag : Nat          -- which object (payload for comparison)
 deriving Repr, DecidableEq, Inhabited
 
-/-- `get_by_id` of a document (`refuseEmpty`) / network: scan the own member lists in declaration order, return
-    the first component carrying the id -/
-def getById (refuseEmpty : Bool) (lists : List (List Comp)) (i : String) : Option Comp :=
-  if refuseEmpty && i.isEmpty then none else
-  lists.flatten.find? (fun c => c.hasId && c.id == i)
+/-- value of one attribute of the document / network object -/
+inductive MVal where
+  | none                       -- None
+  | chars (n : Nat)            -- a string: iterating gives n one-character strings (no `id`)
+  | comps (l : List Comp)      -- a list of objects
+  | scalar                     -- a single non-iterable object (`for m in mlist` raises TypeError)
+deriving Repr, DecidableEq, Inhabited
+
+inductive GRes where
+  | ret (c : Option Comp)
+  | typeError
+  | attrError                  -- `getattr(self, name)` on a name the object does not have
+deriving Repr, DecidableEq, Inhabited
+
+/-- inner loop `for m in mlist:` — `inl c`: `return m`; `inr ids`: the extended `all_ids` -/
+def scanList (i : IdVal) : List Comp → List IdVal → Sum Comp (List IdVal)
+  | [], ids => .inr ids
+  | m :: r, ids =>
+    if m.hasId then (if m.id = i then .inl m else scanList i r (ids ++ [m.id])) else scanList i r ids
+
+inductive Flow where
+  | cont (ids : List IdVal)
+  | found (c : Comp)
+  | raised (e : GRes)
+deriving Repr, DecidableEq, Inhabited
+
+/-- outer loop `for ms in self.member_data_items_:` over the member NAMES of the table, in table order -/
+def scanMembers (vals : List (Nat × MVal)) (i : IdVal) : List Nat → List IdVal → Flow
+  | [], ids => .cont ids
+  | n :: r, ids =>
+    match lookup n vals with
+    | Option.none => .raised .attrError
+    | some .none => scanMembers vals i r ids
+    | some (.chars _) => scanMembers vals i r ids
+    | some .scalar => .raised .typeError
+    | some (.comps l) =>
+      match scanList i l ids with
+      | .inl c => .found c
+      | .inr ids' => scanMembers vals i r ids'
+
+/-- `sorted(all_ids)` raises TypeError as soon as two ids have to be compared that Python cannot order: any `None`
+    among ≥ 2 ids, or a string and an integer -/
+def unsortable (ids : List IdVal) : Bool :=
+  decide (2 ≤ ids.length) && (ids.any (· == IdVal.none) || (ids.any IdVal.isStr && ids.any (fun x => match x with | .int _ => true | _ => false)))
+
+/-- the warning block: `if self.warn_count < 10: print("Id " + id + … + str(sorted(all_ids[, key=str]))); self.warn_count += 1
+    elif self.warn_count == 10: print(…)`; `none` = TypeError -/
+def warnStep (keyStr : Bool) (i : IdVal) (ids : List IdVal) (wc : Nat) : Option Nat :=
+  if wc < 10 then
+    (if !i.isStr then Option.none else if !keyStr && unsortable ids then Option.none else some (wc + 1))
+  else some wc
+
+inductive GCmd where
+  | guardEmptyId                     -- if len(id) == 0: … print … return None          (document only)
+  | initAllIds                       -- all_ids = []
+  | scan                             -- for ms in self.member_data_items_: … return m / all_ids.append(m.id)
+  | warn (keyStr : Bool)             -- the warning block (keyStr: `sorted(all_ids, key=str)`)
+  | returnNone
+deriving Repr, DecidableEq, Inhabited
+
+structure GSt where
+  ids : Option (List IdVal) := Option.none
+  wc : Nat
+  out : Option GRes := Option.none
+deriving Repr, Inhabited
+
+def GCmd.exec (names : List Nat) (vals : List (Nat × MVal)) (i : IdVal) (σ : GSt) : GCmd → GSt
+  | .guardEmptyId =>
+    match i with
+    | .str s => if s.isEmpty then { σ with out := some (.ret Option.none) } else σ
+    | _ => { σ with out := some .typeError }          -- len(None) / len(3)
+  | .initAllIds => { σ with ids := some [] }
+  | .scan =>
+    match σ.ids with
+    | Option.none => { σ with out := some .attrError }  -- NameError (ill-formed body); never generated
+    | some ids =>
+      match scanMembers vals i names ids with
+      | .cont ids' => { σ with ids := some ids' }
+      | .found c => { σ with out := some (.ret (some c)) }
+      | .raised e => { σ with out := some e }
+  | .warn k =>
+    match σ.ids with
+    | Option.none => { σ with out := some .attrError }
+    | some ids =>
+      match warnStep k i ids σ.wc with
+      | Option.none => { σ with out := some .typeError }
+      | some w => { σ with wc := w }
+  | .returnNone => { σ with out := some (.ret Option.none) }
+
+def runGCmds (names : List Nat) (vals : List (Nat × MVal)) (i : IdVal) : List GCmd → GSt → GSt
+  | [], σ => σ
+  | s :: r, σ => if σ.out.isSome then σ else runGCmds names vals i r (s.exec names vals i σ)
+
+/-- (result, new `warn_count`); falling off the end returns `None` -/
+def GSt.result (σ : GSt) : GRes × Nat :=
+  (match σ.out with | some r => r | Option.none => .ret Option.none, σ.wc)
+
+/-- run a translated `get_by_id` body -/
+def runGet (prog : List GCmd) (names : List Nat) (vals : List (Nat × MVal)) (wc : Nat) (i : IdVal) : GRes × Nat :=
+  (runGCmds names vals i prog { wc := wc }).result
+
+/-- what the statements after the scan do, given the scan's outcome -/
+def afterScan (k : Bool) (i : IdVal) (wc : Nat) : Flow → GRes × Nat
+  | .found c => (.ret (some c), wc)
+  | .raised e => (e, wc)
+  | .cont ids =>
+    match warnStep k i ids wc with
+    | Option.none => (.typeError, wc)
+    | some w => (.ret Option.none, w)
+
+/-- hand model of `get_by_id` of a document (`doc`) / network, closed form.  `keyStr`: the proposed repair
+    (`sorted(all_ids, key=str)`) is in the tree -/
+def getByIdM (doc keyStr : Bool) (names : List Nat) (vals : List (Nat × MVal)) (wc : Nat) (i : IdVal) : GRes × Nat :=
+  if doc then
+    match i with
+    | .str s => if s.isEmpty then (.ret Option.none, wc) else afterScan keyStr i wc (scanMembers vals i names [])
+    | _ => (.typeError, wc)
+  else afterScan keyStr i wc (scanMembers vals i names [])
+
+/-- all components (with an `id` attribute) the scan can see, in scan order -/
+def visible (vals : List (Nat × MVal)) : List Nat → List Comp
+  | [] => []
+  | n :: r =>
+    match lookup n vals with
+    | some (.comps l) => l.filter (·.hasId) ++ visible vals r
+    | _ => visible vals r
+
+/-- every scanned attribute exists and is None, a string or a list -/
+def holderOK (vals : List (Nat × MVal)) (names : List Nat) : Bool :=
+  names.all fun n => match lookup n vals with
+    | some .scalar => false
+    | Option.none => false
+    | _ => true
+
+/-! ### call histories -/
+
+inductive Op where
+  | members (c : Nat)
+  | info (c : Nat) (sc : Bool) (fmt : Fmt)
+  | parentinfo (c : Nat) (fmt : Fmt)
+  | checkArg (c : Nat) (kws : List Nat)
+  | getById (doc : Bool) (hc : Nat) (vals : List (Nat × MVal)) (wc : Nat) (i : IdVal)
+deriving Repr, Inhabited
+
+inductive Ans where
+  | members (l : Option (List Spec))
+  | info (o : Option InfoOut)
+  | pinfo (o : Option PInfoOut)
+  | check (b : Option Bool)
+  | got (r : GRes) (wc : Nat)
+deriving Repr, DecidableEq, Inhabited
+
+/-- the translated bodies a history runs -/
+structure Progs where
+  gm : List GMCmd
+  info : List ICmd
+  pinfo : List PCmd
+  check : List CCmd
+  docGet : List GCmd
+  netGet : List GCmd
+deriving Repr, Inhabited
+
+/-- `cc()._get_members()` for every class of the module, threading the class-level state -/
+def allMembersRun (T : Table) (gm : CState → Nat → Option (List Spec) × CState) (S : CState) :
+    List ClassIR → List (Nat × List Spec) × CState
+  | [] => ([], S)
+  | k :: r =>
+    let (m, S1) := gm S k.name
+    let (rest, S2) := allMembersRun T gm S1 r
+    ((k.name, match m with | some l => l | none => []) :: rest, S2)
+
+def step (T : Table) (P : Progs) (S : CState) : Op → Ans × CState
+  | .members c => let (m, S') := runGM T P.gm S c; (.members m, S')
+  | .info c sc fmt =>
+    let (m, S') := runGM T P.gm S c
+    (.info (match m with | some ms => runInfo P.info ms sc fmt | none => none), S')
+  | .parentinfo c fmt =>
+    let (cm, S') := allMembersRun T (runGM T P.gm) S T
+    (.pinfo (runPinfo P.pinfo cm c fmt), S')
+  | .checkArg c kws =>
+    let (m, S') := runGM T P.gm S c
+    (.check (match m with | some ms => runCheck P.check ms kws | none => none), S')
+  | .getById doc hc vals wc i =>
+    let r := runGet (if doc then P.docGet else P.netGet) ((tableOf S hc).map (·.name)) vals wc i
+    (.got r.1 r.2, S)
+
+def run (T : Table) (P : Progs) : CState → List Op → List Ans × CState
+  | S, [] => ([], S)
+  | S, op :: r =>
+    let (a, S1) := step T P S op
+    let (as, S2) := run T P S1 r
+    (a :: as, S2)
+
+/-- the answer of an operation in the pure (state-free) reading of the tables -/
+def pureAns (T : Table) (keyStr : Bool) : Op → Ans
+  | .members c => .members (some (getMembers T c))
+  | .info c sc fmt => .info (some (infoOut (getMembers T c) sc fmt))
+  | .parentinfo c fmt => .pinfo (some (pinfoOut (classMembers T) c fmt))
+  | .checkArg c kws => .check (some (checkArgs (getMembers T c) kws))
+  | .getById doc hc vals wc i =>
+    let r := getByIdM doc keyStr ((tableOf (initState T) hc).map (·.name)) vals wc i
+    .got r.1 r.2
+
+/-! ### schema name -> Python member name (`generateds_config.py` / `changed_names.csv`) -/
+
+/-- `changed_names.csv` first, then generateDS's keyword clean-up (`from` -> `from_`) -/
+def mapName (csv kw : List (Nat × Nat)) (x : Nat) : Nat :=
+  let n := match lookup x csv with | some v => v | none => x
+  match lookup n kw with | some v => v | none => n
+
+/-- an attribute whose mapped name is also the mapped name of a child of the same type gets `_attr` -/
+def attrName (csv kw sfx : List (Nat × Nat)) (elemNames : List Nat) (x : Nat) : Nat :=
+  let n := mapName csv kw x
+  if elemNames.contains n then (match lookup n sfx with | some v => v | none => n) else n
+
+/-- the member names the mapping prescribes for the own attributes and elements of a complex type -/
+def schemaMemberNames (csv kw sfx : List (Nat × Nat)) (x : XType) : List Nat :=
+  let elems := x.elems.map fun e => mapName csv kw e.tag
+  x.attrs.map (fun a => attrName csv kw sfx elems a.name) ++ elems
+
+/-- (class, xml name) of exported attributes / children whose member is not the mapped name -/
+def nameMapViolations (T : Table) (csv kw sfx : List (Nat × Nat)) : List (Nat × Nat) :=
+  T.flatMap fun k =>
+    let kids := k.expChildren.filter (fun c => c.kind != .any)
+    let elems := kids.map fun c => mapName csv kw c.tag
+    (((k.expAttrs.filter (fun a => a.fmt != .xsitype)).filter
+        (fun a => a.member != attrName csv kw sfx elems a.xml)).map fun a => (k.name, a.xml))
+    ++ ((kids.filter (fun c => c.member != mapName csv kw c.tag)).map fun c => (k.name, c.tag))
+
+/-- members a class exports (own level): one per schema attribute / element -/
+def exportedMembers (k : ClassIR) : List Nat :=
+  (k.expAttrs.filter (fun a => a.fmt != .xsitype)).map (·.member)
+  ++ (k.expChildren.filter (fun c => c.kind != .any)).map (·.member)
+
+/-- classes for which two different schema items (own or inherited) collapse to one member name -/
+def nameClashes (T : Table) : List Nat :=
+  (T.filter fun k => !nodupNat ((chain T T.length k.name).flatMap exportedMembers)).map (·.name)
+
+/-- classes whose own `info()` entries are not exactly the mapped names of the schema type's own attributes and
+    elements (plus the `__ANY__` pseudo-member exactly when the type has an `xs:any` particle) -/
+def infoSchemaNameViolations (T : Table) (X : Xsd) (csv kw sfx : List (Nat × Nat)) (anyName : Nat) : List Nat :=
+  (T.filter fun k =>
+    match findType X k.name with
+    | some x => !sameSet (k.specs.map (·.name)) (schemaMemberNames csv kw sfx x ++ (if x.hasAny then [anyName] else []))
+    | none => true).map (·.name)
+
+/-- classes in which two members reported by `info()` (own or inherited) share a name -/
+def dupMemberNames (T : Table) : List Nat :=
+  (T.filter fun k => !nodupNat ((getMembers T k.name).map (·.name))).map (·.name)
 
 end NmlVerif.Introspect
